@@ -723,7 +723,15 @@ def discharge(eng: Engine, rep: dict, timeout_ms=10000, second_opinion=False) ->
             canary = "sat"
             break
         if v == "unknown":
-            canary = "unknown"
+            # quantifiers left the solver undecided: at least the quantifier-free part must be satisfiable
+            qf = [h for h in hy if not prep._has_var_or_quant(h)]
+            v2, _ = smt.check(qf + smt.pow2_axioms(qf), z3.BoolVal(False), 4000, want_model=False)
+            if v2 == "sat":
+                canary = "unknown" if canary != "sat" else canary
+            elif v2 == "unsat" and canary == "no-exit":
+                canary = "unsat"
+            else:
+                canary = "unknown"
         elif canary == "no-exit":
             canary = "unsat"
     rep["canary"] = canary
